@@ -6,19 +6,25 @@ through that renaming instead of failing to bind (vlib/pyvc/verify.py: local_ren
 import ast, json, os, sys
 HERE = os.path.dirname(os.path.dirname(os.path.abspath(__file__)))
 sys.path.insert(0, HERE)
-from vlib.pyvc.verify import ordered_locals
+from vlib.pyvc.verify import ordered_locals, loop_headers
 REPO = os.environ.get('VERIF_REPO', '/repo')
 out = {}
+loops = {}
 for rel in ('EoN/simulation.py', 'EoN/analytic.py', 'EoN/auxiliary.py', 'EoN/__init__.py', 'EoN/simulation_investigation.py'):
     tree = ast.parse(open(os.path.join(REPO, rel)).read())
     d = {}
+    L = {}
     for n in tree.body:
         if isinstance(n, ast.FunctionDef):
             d[n.name] = ordered_locals(n)
+            L[n.name] = loop_headers(n)
         elif isinstance(n, ast.ClassDef):
             for m in n.body:
                 if isinstance(m, ast.FunctionDef):
                     d['%s.%s' % (n.name, m.name)] = ordered_locals(m)
+                    L['%s.%s' % (n.name, m.name)] = loop_headers(m)
     out[rel] = d
+    loops[rel] = L
 json.dump(out, open(os.path.join(HERE, 'baseline_locals.json'), 'w'), indent=0, sort_keys=True)
+json.dump(loops, open(os.path.join(HERE, 'baseline_loops.json'), 'w'), indent=0, sort_keys=True)
 print('recorded', sum(len(v) for v in out.values()), 'functions')
